@@ -40,7 +40,10 @@ pub fn monitor(out: &mut Out, op: u128, ask: u128, x: u128, f: (u128, u128, u128
             }
             if s.ret >= ask { out.monitor_fail("C02", "proceeds not strictly below the ask reserve", replay.clone()); }
             // there and straight back
-            let ask2 = ask - s.ret - s.pf - s.bf;
+            let ask2 = match ask.checked_sub(s.ret).and_then(|v| v.checked_sub(s.pf)).and_then(|v| v.checked_sub(s.bf)) {
+                Some(v) => v,
+                None => { out.monitor_fail("C02", "proceeds + protocol fee + burn fee exceed the ask reserve", replay.clone()); return; }
+            };
             if let Some(op2) = op.checked_add(x) {
                 if s.ret > 0 && ask2 > 0 {
                     if let Outcome::Ok(s2) = impl_swap(ask2, op2, s.ret, f) {
@@ -150,6 +153,19 @@ pub fn run(args: &Args) {
             if let Ok(p) = w.query_pool() { d0 = p.assets[0].amount.u128(); d1 = p.assets[1].amount.u128(); }
             let pend = w.fees_query(false);
             out.count(if pend[0] > 0 && pend[1] > 0 { "sim:pending_fees_both" } else { "sim:pending_fees_not_both" });
+        }
+        // "every valid fee configuration" includes one reached by UpdateConfig while fees charged under the previous one are still pending:
+        // every fourth pool is then given another valid schedule (protocol fee 0 in half of them) before it is quoted
+        let mut f = f;
+        if i % 4 == 0 && i > 0 {
+            let mut nf = fee_triple(&mut rng, true);
+            if (i / 4) % 2 == 1 { nf.0 = 0; }
+            let msg = white_whale_std::pool_network::pair::ExecuteMsg::UpdateConfig { owner: None, fee_collector_addr: None, pool_fees: Some(pool_fee(nf.0, nf.1, nf.2)), feature_toggle: None };
+            let pair = w.pair.clone();
+            match cw_multi_test::Executor::execute_contract(&mut w.app, cosmwasm_std::Addr::unchecked(OWNER), pair, &msg, &[]) {
+                Ok(_) => { f = nf; out.count(if nf.0 == 0 { "sim:fees_changed_protocol_zero" } else { "sim:fees_changed" }); }
+                Err(_) => out.count("sim:fee_change_rejected"),
+            }
         }
         for _ in 0..4 {
             let dir = rng.below(2) as usize;
